@@ -10,6 +10,7 @@ import (
 
 	"github.com/dcaiafa/lox/internal/base/assert"
 	"github.com/dcaiafa/lox/internal/base/logger"
+	"github.com/dcaiafa/lox/internal/base/set"
 )
 
 const (
@@ -96,6 +97,10 @@ type Grammar struct {
 	Prods         []*Prod
 	EOFTerminal   *Terminal
 	ErrorTerminal *Terminal
+
+	// ruleFirst caches the FIRST set of every Rule (see First). It is reset
+	// whenever the grammar is modified.
+	ruleFirst map[*Rule]*set.Set[*Terminal]
 }
 
 // NewGrammar creates a new Grammar.
@@ -116,6 +121,7 @@ func NewGrammar() *Grammar {
 // trying to derive. If a Rule is not in the transitive closure of things
 // derivable from the start rule, it will never be derived.
 func (g *Grammar) SetStart(rule *Rule) {
+	g.ruleFirst = nil
 	g.Prods[0].Terms = []Term{rule}
 }
 
@@ -136,6 +142,7 @@ func (g *Grammar) AddTerminal(name string) *Terminal {
 // used to retrieve a `Rule` object from a symbol id. IsRule can be used to
 // determine whether a symbol id references a Rule.
 func (g *Grammar) AddRule(name string) *Rule {
+	g.ruleFirst = nil
 	r := &Rule{
 		Index: len(g.Rules),
 		Name:  name,
@@ -146,6 +153,7 @@ func (g *Grammar) AddRule(name string) *Rule {
 
 // AddProd adds a Prod to a Rule.
 func (g *Grammar) AddProd(rule *Rule, terms ...Term) *Prod {
+	g.ruleFirst = nil
 	p := &Prod{
 		Index: len(g.Prods),
 		Rule:  rule,
